@@ -12,7 +12,9 @@ ID = "C11"
 LEVEL = "exploration"
 RULE = ("each run: generated well-formed input (sweep first, then sampling; knobs biased to absent parts); the decoder's "
         "object, events_to_obj(events), obj_to_events of both, their re-encoding and the Canonical facade are compared; "
-        "non-trivial = all comparisons evaluated on a decodable input; distinct = distinct (type, cc, flag, bytes)")
+        "5% of the runs also convert the kept events / object of a message with encrypted parameters decoded many runs "
+        "earlier in the same worker process; non-trivial = all comparisons evaluated on a decodable input; distinct = "
+        "distinct (type, cc, flag, bytes)")
 REAL = common.REAL_DECODER + ["tpmstream.common.object", "tpmstream.common.canonical", "tpmstream.io.binary.unmarshal"]
 ASSUMPTIONS = ["== on objects / events is the library's own equality, exactly as the property states"]
 TIERS = {"quick": {"runs": 40000, "budget": 75}, "thorough": {"runs": 500000, "budget": 780}}
@@ -32,8 +34,46 @@ def make_case(i, rng, tier):
         return None
     main = common.spec("main", inp, strict=True)
     tasks, sched = common.perturb(rng, [main], p_by=0.3)
-    return {"input": {"root": inp["root"], "cc": inp["cc"], "enc": inp["enc"], "label": inp["label"]},
+    return {"input": {"root": inp["root"], "cc": inp["cc"], "enc": inp["enc"], "label": inp["label"],
+                      "later": rng.randrange(64) if rng.random() < 0.05 else None},
             "tasks": tasks, "schedule": sched}
+
+
+# decode now, convert later: results of earlier runs of this process (messages with encrypted parameter areas first -
+# their layout is synthesised) are kept alive and converted again many runs later
+_KEEP = []          # the first 4 such results of the process stay for good
+_RING = []          # 4 more rotate slowly
+
+
+def remember(label, events, obj, cc, run_index):
+    ent = (label, list(events), obj, cc)
+    if len(_KEEP) < 4:
+        _KEEP.append(ent)
+    elif len(_RING) < 4:
+        _RING.append(ent)
+    elif run_index % 97 == 0:
+        _RING[(run_index // 97) % 4] = ent
+
+
+def convert_later(res, k, label_now):
+    from tpmstream.common.object import events_to_obj, obj_to_events
+    pool = _KEEP + _RING
+    if not pool:
+        return
+    label, E, o1, cc = pool[k % len(pool)]
+    res.count("hist:converted-later")
+    try:
+        o2 = events_to_obj(E, command_code=cc)
+        E2 = list(obj_to_events(o1))
+    except Exception as e:
+        res.v("C11.f", "C11.f:later:%s" % type(e).__name__, "%s decoded earlier in this process: converting it now raised %s: %s" % (label, type(e).__name__, str(e)[:160]))
+        return
+    if not (o1 == o2):
+        res.v("C11.f", "C11.f:later:objects-differ:%s" % _where(o1, o2), "%s was decoded earlier in this process (its events and object were kept); "
+              "events_to_obj(its events) now != its decoder object: first difference at %s" % (label, _where(o1, o2, True)))
+    elif E2 != E:
+        res.v("C11.f", "C11.f:later:events-differ", "%s was decoded earlier in this process; obj_to_events(its object) now != its events: %s" % (
+            label, common.show_diff(_evs(E2), _evs(E)) if _evs(E2) != _evs(E) else "comparable forms equal; == on the event objects fails (declared type objects differ)"))
 
 
 def _evs(events):
@@ -101,6 +141,10 @@ def check(case):
     except Exception as e:
         res.v("C11.d", "C11.d:%s" % type(e).__name__, "%s: Canonical raised %s: %s" % (label, type(e).__name__, str(e)[:200]))
     res.count("root:" + kind)
+    if case["input"].get("later") is not None:
+        convert_later(res, case["input"]["later"], label)
+    if hasattr(o1, "__dataclass_fields__") and (s.get("enc") or label.endswith(":e1")):
+        remember(label, E, o1, cc, (case.get("_run") or {}).get("index", 0))
     res.nontrivial(s["type"], s.get("cc"), s.get("enc"), s["data"])
     return res
 
